@@ -13,6 +13,21 @@ Check c12_same_value_same_parse : forall v w1 w2 r1 r2, enc_fetch v w1 -> enc_fe
   exists u1 u2, parse (w1 ++ r1) = ROk r1 v u1 /\ parse (w2 ++ r2) = ROk r2 v u2.
 Print Assumptions c12_same_value_same_parse.
 
+Theorem c12_same_value_same_parse_data : forall v w1 w2 r1 r2,
+  (enc_data_response v w1 \/ enc_status_response v w1 \/ enc_tagged_response v w1) ->
+  (enc_data_response v w2 \/ enc_status_response v w2 \/ enc_tagged_response v w2) ->
+  exists u1 u2, parse (w1 ++ r1) = ROk r1 v u1 /\ parse (w2 ++ r2) = ROk r2 v u2.
+Proof.
+  intros v w1 w2 r1 r2 H1 H2. eexists _, _. split.
+  - destruct H1 as [H | [H | H]]; [apply data_roundtrip | apply status_roundtrip | apply tagged_roundtrip]; exact H.
+  - destruct H2 as [H | [H | H]]; [apply data_roundtrip | apply status_roundtrip | apply tagged_roundtrip]; exact H.
+Qed.
+Check c12_same_value_same_parse_data : forall v w1 w2 r1 r2,
+  (enc_data_response v w1 \/ enc_status_response v w1 \/ enc_tagged_response v w1) ->
+  (enc_data_response v w2 \/ enc_status_response v w2 \/ enc_tagged_response v w2) ->
+  exists u1 u2, parse (w1 ++ r1) = ROk r1 v u1 /\ parse (w2 ++ r2) = ROk r2 v u2.
+Print Assumptions c12_same_value_same_parse_data.
+
 (* the individual freedoms, at the parser functions where they arise *)
 Theorem c12_keyword_case : forall s w d, same_nocase s w = true -> Ok native_call env rk (Leaf (LTagNC s)) d w (VBytes w) any.
 Proof. intros s w d H. apply ok_tag_nc, H. Qed.
